@@ -227,6 +227,19 @@ pub fn run(seed: u64, thorough: bool, rep: &mut Report) {
         let got = serde_json::json!(&conf);
         for f in &fields {
             rep.line(&format!("cf eff {f} {} {}", tok(file.get(f)), tok(cli.get(f))), &show(&got[f.as_str()]));
+            // monitor: the statement itself, field by field, whatever else is set in the same draw
+            let is_bool = defaults[f.as_str()].is_boolean();
+            let (fv, cv) = (file.get(f).cloned(), cli.get(f).cloned());
+            let want = if f == "overwrite_key" || f == "force_update" {
+                cv.clone().unwrap_or_else(|| "false".into())
+            } else if is_bool {
+                if cv.as_deref() == Some("true") { "true".into() } else { fv.clone().unwrap_or_else(|| show(&defaults[f.as_str()])) }
+            } else {
+                cv.clone().or_else(|| fv.clone()).unwrap_or_else(|| show(&defaults[f.as_str()]))
+            };
+            if show(&got[f.as_str()]) != want {
+                rep.fail("C20", &format!("precedence-joint:{f}"), &format!("{f}: file {fv:?} cli {cv:?} -> {}, expected {want} (file {file:?}, command line {cli:?})", show(&got[f.as_str()])));
+            }
         }
         rep.count("joint-draw");
     }
